@@ -282,6 +282,21 @@ def gen_c15(rng, tier):
         line = 'wr ' + ' '.join(f'{hexb(h)}:{hexb(c)}' for h, c in cs) + ' | ' + ' '.join(map(str, reads))
         wr.append((line, cs, reads))
         stats['writer_pipeline'] += 1
+    # (e) the writer with large chunks: header+content exactly at, just below and just above multiples of
+    # 1 MiB (a transport that cuts chunks into messages has its boundaries there), and two multi-megabyte
+    # chunks with different content in a row (a reused message buffer must not alias the caller's data)
+    M = 1 << 20
+    big_specs = [(12, [M - 12]), (12, [M - 13]), (12, [M - 11, 40]), (7, [2 * M - 7, 100]), (5, [3 * M + 17, 3 * M + 900, 50])]
+    if tier != 'quick':
+        big_specs += [(0, [M]), (9, [M - 9, M - 9, M - 9]), (3, [4 * M - 3 - 1024]), (16, [M + 5, 2 * M - 16, M - 16, 7])]
+    for hs, sizes in big_specs:
+        g = ByteGen()
+        cs = [(g.take(hs), g.take(n)) for n in sizes]
+        total = sum(len(h) + len(c) for h, c in cs)
+        reads = [65536] * (total // 65536 + len(cs) + 3)
+        line = 'wr ' + ' '.join(f'{hexb(h)}:{hexb(c)}' for h, c in cs) + ' | ' + ' '.join(map(str, reads))
+        wr.append((line, cs, reads))
+        stats['writer_pipeline_large'] += 1
     return cases, wr, stats
 
 
@@ -330,7 +345,10 @@ def run_c15(rng, tier, verdict, counters, samples, seed):
                           'harness crashed or produced a short output', no_input=True)
         return len(lines), 0, stats
     model = os.path.join(vlib.BUILD, 'net_driver')
-    rcm, mo = vlib.run_lines(model, lines, timeout=1800)
+    # the multi-megabyte writer cases are judged by the oracle alone (the extracted model works on lists
+    # of byte values: minutes per case); the model gets an empty case in their place
+    big_idx = {i for i, l in enumerate(lines) if len(l) > 1000000 and l.startswith('wr ')}
+    rcm, mo = vlib.run_lines(model, [('wr  | 1' if i in big_idx else l) for i, l in enumerate(lines)], timeout=1800)
     if len(mo) != len(lines):
         verdict.violation(dict(broken='model driver output length', got=len(mo), want=len(lines)), 'model driver crashed', no_input=True)
         return len(lines), 0, stats
@@ -367,15 +385,41 @@ def run_c15(rng, tier, verdict, counters, samples, seed):
             left, right = g.split('|', 1)
             msgs = left.split()
             want = [f'm:{hexb(h + c)}:1' for h, c in cs]
+            split_differently = False
             if msgs != want:
-                bad = ('writer-messages', msgs[:3], want[:3])
+                # the property: the bytes up to each end-of-chunk flag are the writer's chunk; whether a
+                # chunk travels in one message or several is the implementation's business
+                got_chunks, cur, items = [], b'', []
+                try:
+                    for mtxt in msgs:
+                        _, hx, fl = mtxt.split(':')
+                        bts = bytes.fromhex(hx) if hx not in ('', '-') else b''
+                        items.append((bts, fl == '1'))
+                        cur += bts
+                        if fl == '1':
+                            got_chunks.append(cur); cur = b''
+                except ValueError:
+                    items = None
+                if items is None or cur or got_chunks != [h + c for h, c in cs]:
+                    bad = ('writer-messages', [x[:40] for x in msgs[:3]], [x[:40] for x in want[:3]])
+                else:
+                    split_differently = True
+                    bad = c15_oracle(items, reads, right.strip(), True)
             else:
                 items = [(h + c, True) for h, c in cs]
                 bad = c15_oracle(items, reads, right.strip(), True)
+            if not bad and split_differently:
+                counters['correspondence'] += 1
+                verdict.violation(dict(seed=seed, case=line[:4000], implementation=g[:1500],
+                                       broken='correspondence C15: grpcWriter cuts chunks into messages differently from the model (one message per chunk); the chunks and the released bytes are right', how_to_run=how),
+                                  'C15 writer pipeline: messages differ from the model, property holds on the observation', no_input=True)
+                continue
         if bad:
             counters['oracle:' + bad[0]] += 1
             verdict.violation(dict(seed=seed, case=line[:4000], finding=list(map(str, bad)), implementation=g[:2000], how_to_run=how),
                               f'C15 writer pipeline: {bad[0]}')
+        elif (base + j) in big_idx:
+            counters['clean_writer_large'] += 1
         elif g != m:
             counters['correspondence'] += 1
             verdict.violation(dict(seed=seed, case=line[:4000], implementation=g[:1500], model=m[:1500],
